@@ -146,13 +146,15 @@ pub fn run(a: &Args) {
     }
     // 4. class x qclass
     for c in [1u16, 2, 3, 4, 254] {
-        for how in ["constructed", "parsed"] {
-            let rr = if how == "constructed" {
-                ResourceRecord::new(Name::new_unchecked("x"), class_from(c).unwrap(), 1, RData::Empty(TYPE::A))
+        // (the mDNS cache-flush bit shares the class field on the wire but is not part of the class)
+        for how in ["constructed", "parsed", "constructed+cache-flush", "parsed+cache-flush"] {
+            let flush = how.ends_with("cache-flush");
+            let rr = if how.starts_with("constructed") {
+                ResourceRecord::new(Name::new_unchecked("x"), class_from(c).unwrap(), 1, RData::Empty(TYPE::A)).with_cache_flush(flush)
             } else {
                 let mut m = vec![0, 1, 0x80, 0, 0, 0, 0, 1, 0, 0, 0, 0];
                 m.extend(b"\x01x\x00\x00\x01");
-                m.extend(c.to_be_bytes());
+                m.extend((c | if flush { 0x8000 } else { 0 }).to_be_bytes());
                 m.extend([0, 0, 0, 1, 0, 0]);
                 match Packet::parse(&m) {
                     Ok(p) => p.answers[0].clone().into_owned(),
